@@ -257,9 +257,14 @@ class ScenarioManagerSd(ScenarioManager):
             for scenario in self.scenarios.values():
                 if scenario.model == None:
                     scenario.model = model_class()
-                    scenario.starttime = scenario.model.starttime
-                    scenario.stoptime = scenario.model.stoptime
-                    scenario.dt = scenario.model.dt
+                    # run specs given in the scenario file take precedence over the model's own
+                    runspecs = scenario.dictionary.get("runspecs", {})
+                    if "starttime" not in runspecs:
+                        scenario.starttime = scenario.model.starttime
+                    if "stoptime" not in runspecs:
+                        scenario.stoptime = scenario.model.stoptime
+                    if "dt" not in runspecs:
+                        scenario.dt = scenario.model.dt
                     scenario.setup_constants()
                     scenario.setup_points()
 
